@@ -169,11 +169,16 @@ func (m *Manager) OnConflict(handler ConflictHandler) {
 
 // Stats returns current partition statistics.
 func (m *Manager) Stats() PartitionStats {
+	// Read the state before taking the statistics lock: the health checker holds
+	// m.mu while it updates the statistics (m.mu -> stats.mu), so taking m.mu
+	// here under stats.mu would invert that order and can deadlock both.
+	state := m.State()
+
 	m.stats.mu.RLock()
 	defer m.stats.mu.RUnlock()
 	// Copy fields individually to avoid copying the embedded sync.RWMutex.
 	return PartitionStats{
-		CurrentState:        m.State(),
+		CurrentState:        state,
 		PartitionStartTime:  m.stats.PartitionStartTime,
 		TotalPartitions:     m.stats.TotalPartitions,
 		TotalPartitionTime:  m.stats.TotalPartitionTime,
